@@ -35,7 +35,7 @@ HARNESSES += [
       quick=[_fam(d, f) for d in (2, 3) for f in FAMS[d]], thorough=[_fam(d, f, 6) for d in (2, 3) for f in FAMS[d]]),
  dict(name='dyn', src='harnesses/C05.c', func='h_dyn', kernels=['C05_slice'], unwind=6,
       bounds='index::shape_dynamic_slice / dynamic_slice with a std::vector of either<int, either<array<int,3>, ellipsis>>: item count 1..DIM+1 and every item kind symbolic (at most one ellipsis), DIM the per-query constant; values as in fam',
-      quick=[dict(_kf(*ALLKF), DIM=d, MAXF=3) for d in (2, 3)], thorough=[dict(_kf(*ALLKF), DIM=d, MAXF=4) for d in (2, 3)]),
+      quick=[dict(_kf(*ALLKF), DIM=d, MAXF=3, LISTK='_sv') for d in (2, 3)], thorough=[dict(_kf(*ALLKF), DIM=d, MAXF=4, LISTK='_sv') for d in (2, 3)]),
 ]
 OUTSIDE = []
 ASSUMPTIONS = []
